@@ -265,6 +265,20 @@ CHECKS = {
         "oracle inconsistency aborts instead of reporting). NotImplementedError is a refusal. Known finding: "
         "pure scalars in default gradients (known_findings.json). Tolerance 1e-8.",
         "DESIGN.md 4/C15"),
+    "C20": (
+        "exhaustive enumeration of all diagrams of the shape universe up to the bound; the real "
+        "diagram2nx / draw / diagramize checked against a replay of the scan and on the primitives a "
+        "recording back-end receives",
+        "Every diagram over boxes of arities 0..3 (scalars, states, effects, wide boxes above narrow gaps) "
+        "up to the depth bound on up to 4 wires: the layout graph has exactly one node per input, output, "
+        "box and port and exactly the edges the scan prescribes; at every height the open wires have "
+        "strictly increasing x; wires between boxes are vertical; edges point downwards; every box lies "
+        "strictly between its neighbouring wires; with a recording Backend passed through draw(backend=) "
+        "no straight wire segment enters a polygon and no two segments cross. TikZ and matplotlib render "
+        "every depth-<=2 diagram and samples of rigid/tensor/circuit/zx diagrams without error; diagramize "
+        "of the function body generated from every depth-<=2 diagram gives the diagram back.",
+        "Coordinates and requested primitives are checked, not pixels. matplotlib/Agg to a temp dir.",
+        "DESIGN.md 4/C20"),
 }
 
 PENDING_REASON = ("check not built yet in this session (planned: bounded exhaustive exploration as in "
